@@ -219,3 +219,726 @@ Proof.
   apply asc_cons in H as (H1 & H2 & H3 & H4). apply nondecreasing_cons. split; [|eapply IH; eassumption].
   eapply Forall_impl; [|eapply asc_all_ge; exact H4]. cbn. intros; lia.
 Qed.
+
+(* ------------------------------------------------------------------ local rewriting lemmas for Add *)
+Lemma replace1_coalesce lo lold cold lb cb f :
+  0 <= lo -> 0 <= lold -> lo + lold <= zlen f ->
+  replace1 lo (lold + cold) (lb ++ cb) f = replace1 lo lold lb (replace1 (lo + lold) cold cb f).
+Proof.
+  intros H1 H2 H3. unfold replace1.
+  assert (Ht : zlen (ztake (lo + lold) f) = lo + lold) by (apply zlen_ztake; lia).
+  rewrite ztake_app_l by lia. rewrite ztake_ztake by lia.
+  rewrite zdrop_app_exact by exact Ht.
+  rewrite <- app_assoc. now rewrite Z.add_assoc.
+Qed.
+
+Lemma split_local n : forall off rem blob pos B g,
+  0 <= pos -> 0 <= rem ->
+  asc_disjoint pos (mkPatch off (Z.of_nat n * uint32Max + rem) blob :: B) (zlen g) = true ->
+  asc_disjoint pos ((split_pieces n off ++ [mkPatch (off + Z.of_nat n * uint32Max) rem blob]) ++ B) (zlen g) = true /\
+  splice ((split_pieces n off ++ [mkPatch (off + Z.of_nat n * uint32Max) rem blob]) ++ B) g =
+  splice (mkPatch off (Z.of_nat n * uint32Max + rem) blob :: B) g.
+Proof.
+  induction n as [|n IH]; intros off rem blob pos B g Hpos Hrem H.
+  - cbn [split_pieces app]. replace (off + Z.of_nat 0 * uint32Max) with off by lia.
+    replace (Z.of_nat 0 * uint32Max + rem) with rem in * by lia. split; [exact H|reflexivity].
+  - cbn [split_pieces]. rewrite <- !app_comm_cons.
+    replace (off + Z.of_nat (S n) * uint32Max) with ((off + uint32Max) + Z.of_nat n * uint32Max) by lia.
+    apply asc_cons in H as (H1 & H2 & H3 & H4). cbn [p_off p_old p_blob] in *.
+    assert (HM : 0 <= uint32Max) by (unfold uint32Max; lia).
+    assert (Hn : 0 <= Z.of_nat n * uint32Max) by (unfold uint32Max; lia).
+    assert (HS : Z.of_nat (S n) * uint32Max = uint32Max + Z.of_nat n * uint32Max) by lia.
+    destruct (IH (off + uint32Max) rem blob (off + uint32Max) B g) as [A SE]; [lia|lia| |].
+    { apply asc_cons. cbn [p_off p_old p_blob]. repeat split; try lia.
+      replace (off + uint32Max + (Z.of_nat n * uint32Max + rem))
+        with (off + (Z.of_nat (S n) * uint32Max + rem)) by lia. exact H4. }
+    split.
+    + apply asc_cons. cbn [p_off p_old p_blob]. repeat split; try lia. exact A.
+    + rewrite splice_cons, SE, !splice_cons. cbn [p_off p_old p_blob].
+      destruct (splice_shape B g (off + (Z.of_nat (S n) * uint32Max + rem))) as [_ L]; [lia|exact H4|].
+      rewrite <- replace1_coalesce by lia. cbn [app]. f_equal. lia.
+Qed.
+
+Lemma split_count_facts old : 0 <= old ->
+  0 <= split_count old /\ 0 <= old - split_count old * uint32Max /\
+  (split_count old = 0 \/ split_count old * uint32Max < old).
+Proof.
+  intros H. unfold split_count, add_split_cond, uint32Max.
+  destruct (old >? 4294967295) eqn:E; lia.
+Qed.
+
+Lemma local_fresh off old blob pos B g :
+  0 <= pos ->
+  asc_disjoint pos (mkPatch off old blob :: B) (zlen g) = true ->
+  asc_disjoint pos (add_fresh off old blob ++ B) (zlen g) = true /\
+  splice (add_fresh off old blob ++ B) g = splice (mkPatch off old blob :: B) g.
+Proof.
+  intros Hpos H. unfold add_fresh.
+  assert (Hold : 0 <= old) by (apply asc_cons in H; cbn in H; lia).
+  destruct (split_count_facts old Hold) as (K1 & K2 & _).
+  set (k := split_count old) in *. cbv zeta.
+  pose (n := Z.to_nat k). assert (Hk : k = Z.of_nat n) by (unfold n; lia).
+  replace (Z.to_nat k) with n by reflexivity. rewrite Hk in *.
+  replace old with (Z.of_nat n * uint32Max + (old - Z.of_nat n * uint32Max)) in H at 1 by lia.
+  destruct (split_local n off (old - Z.of_nat n * uint32Max) blob pos B g Hpos K2 H) as [A S].
+  split; [exact A|]. rewrite S. do 3 f_equal. lia.
+Qed.
+
+Lemma coalesce_inv last off old blob m :
+  try_coalesce last off old blob = Some m ->
+  off = p_off last + p_old last /\ m = mkPatch (p_off last) (p_old last + old) (p_blob last ++ blob).
+Proof.
+  unfold try_coalesce, add_coalesce_cond, add_last_end, add_old_combo, add_new_combo.
+  destruct (_ && _ && _) eqn:E; [|discriminate].
+  intros H. inversion H; subst. split; [lia|reflexivity].
+Qed.
+
+Lemma local_merge_fwd last off old blob m pos B g :
+  try_coalesce last off old blob = Some m -> 0 <= pos ->
+  asc_disjoint pos (last :: mkPatch off old blob :: B) (zlen g) = true ->
+  asc_disjoint pos (m :: B) (zlen g) = true /\
+  splice (m :: B) g = splice (last :: mkPatch off old blob :: B) g.
+Proof.
+  intros Hc Hpos H. apply coalesce_inv in Hc as [-> ->].
+  apply asc_cons in H as (H1 & H2 & H3 & H4).
+  apply asc_cons in H4 as (H5 & H6 & H7 & H8). cbn [p_off p_old p_blob] in *.
+  split.
+  - apply asc_cons. cbn [p_off p_old p_blob]. repeat split; try lia.
+    now rewrite Z.add_assoc.
+  - rewrite !splice_cons. cbn [p_off p_old p_blob].
+    destruct (splice_shape B g (p_off last + p_old last + old)) as [_ L]; [lia|exact H8|].
+    apply replace1_coalesce; lia.
+Qed.
+Lemma local_merge_bwd last off old blob m pos B flen :
+  try_coalesce last off old blob = Some m -> 0 <= p_old last -> 0 <= old ->
+  asc_disjoint pos (m :: B) flen = true ->
+  asc_disjoint pos (last :: mkPatch off old blob :: B) flen = true.
+Proof.
+  intros Hc Hl Ho H. apply coalesce_inv in Hc as [-> ->].
+  apply asc_cons in H as (H1 & H2 & H3 & H4). cbn [p_off p_old p_blob] in *.
+  apply asc_cons. repeat split; try lia.
+  apply asc_cons. cbn [p_off p_old p_blob]. repeat split; try lia.
+  now rewrite <- Z.add_assoc.
+Qed.
+
+Lemma add_all_snoc cs c : add_all (cs ++ [c]) = add (add_all cs) (c_off c) (c_old c) (c_blob c).
+Proof. unfold add_all. now rewrite fold_left_app. Qed.
+
+Lemma add_cases ps off old blob :
+  add ps off old blob = ps ++ add_fresh off old blob \/
+  exists front last m, ps = front ++ [last] /\ try_coalesce last off old blob = Some m /\
+                       add ps off old blob = front ++ [m].
+Proof.
+  unfold add. destruct (rev ps) as [|last fr] eqn:E.
+  - left. rewrite <- (rev_involutive ps), E. reflexivity.
+  - assert (Hps : ps = rev fr ++ [last]) by (rewrite <- (rev_involutive ps), E; reflexivity).
+    destruct (try_coalesce last off old blob) as [m|] eqn:T.
+    + right. exists (rev fr), last, m. auto.
+    + left. reflexivity.
+Qed.
+
+(* ------------------------------------------------------------------ 2. Add in file order *)
+Lemma fileorder_inv : forall cs g B,
+  asc_disjoint 0 (map call_patch cs ++ B) (zlen g) = true ->
+  asc_disjoint 0 (add_all cs ++ B) (zlen g) = true /\
+  splice (add_all cs ++ B) g = splice (map call_patch cs ++ B) g.
+Proof.
+  induction cs as [|c cs IH] using rev_ind; intros g B H.
+  - cbn. auto.
+  - rewrite map_app in *. cbn [map] in *. rewrite <- app_assoc in *. cbn [app] in *.
+    destruct (IH g (call_patch c :: B) H) as [A S]. rewrite <- S. clear S H IH.
+    rewrite add_all_snoc. unfold call_patch in *.
+    destruct (add_cases (add_all cs) (c_off c) (c_old c) (c_blob c)) as [E|(front & last & m & E1 & E2 & E3)].
+    + rewrite E, <- !app_assoc. apply asc_app in A as [A1 A2].
+      pose proof (asc_endpos_ge _ _ _ A1) as Hp.
+      destruct (local_fresh _ _ _ _ _ _ Hp A2) as [A3 S3].
+      split; [apply asc_app; auto|]. rewrite (splice_app (add_all cs)), S3. now rewrite <- splice_app.
+    + rewrite E3. rewrite E1 in A |- *. rewrite <- !app_assoc in *. cbn [app] in *.
+      apply asc_app in A as [A1 A2]. pose proof (asc_endpos_ge _ _ _ A1) as Hp.
+      destruct (local_merge_fwd _ _ _ _ _ _ _ _ E2 Hp A2) as [A3 S3].
+      split; [apply asc_app; auto|]. rewrite (splice_app front), S3. now rewrite <- splice_app.
+Qed.
+
+Lemma add_fileorder_sound : forall cs file,
+  asc_disjoint 0 (map call_patch cs) (zlen file) = true ->
+  asc_disjoint 0 (add_all cs) (zlen file) = true /\
+  splice (add_all cs) file = splice (map call_patch cs) file.
+Proof.
+  intros cs file H. pose proof (fileorder_inv cs file []) as G. rewrite !app_nil_r in G. auto.
+Qed.
+
+(* ------------------------------------------------------------------ 4. pipeline, file order *)
+Lemma apply_fileorder : forall cs file q,
+  asc_disjoint 0 (map call_patch cs) (zlen file) = true ->
+  Permutation q (add_all cs) -> nondecreasing q = true -> strictly_asc (isort (add_all cs)) = true ->
+  rewrite q file = Ok (splice_calls cs file).
+Proof.
+  intros cs file q H HP Hq Hs.
+  destruct (add_fileorder_sound cs file H) as [A S].
+  rewrite (sorted_perm_unique q _ HP Hq Hs).
+  rewrite (isort_id (add_all cs)) by (eapply asc_nondecreasing; exact A).
+  unfold splice_calls. rewrite (isort_id (map call_patch cs)) by (eapply asc_nondecreasing; exact H).
+  rewrite rewrite_sorted by exact A. now rewrite S.
+Qed.
+
+(* ------------------------------------------------------------------ 6/7. Dump / Load *)
+Definition hdr3 (p : patch) : Z * Z * Z := (p_off p, p_old p, p_new p).
+
+Lemma zslice_head {A} b (Y Z : list A) : zlen Y = b -> zslice 0 b (Y ++ Z) = Y.
+Proof. intros H. unfold zslice. rewrite zdrop_0, Z.sub_0_r. now apply ztake_app_exact. Qed.
+Lemma zslice_mid {A} a b (X Y Z : list A) :
+  zlen X = a -> zlen Y = b - a -> zslice a b (X ++ Y ++ Z) = Y.
+Proof.
+  intros H1 H2. unfold zslice. rewrite zdrop_app_exact by exact H1. now apply ztake_app_exact.
+Qed.
+
+Lemma zlen_enc_header p : zlen (enc_header p) = 16.
+Proof. unfold enc_header. rewrite !zlen_app, !be_enc_zlen. lia. Qed.
+Lemma zlen_hdrs ps : zlen (concat (map enc_header ps)) = 16 * zlen ps.
+Proof.
+  induction ps as [|p ps IH]; [reflexivity|].
+  cbn [map concat]. rewrite zlen_app, zlen_enc_header, IH, zlen_cons. lia.
+Qed.
+
+Lemma to_i64_small n : 0 <= n < 2 ^ 63 -> to_i64 n = n.
+Proof.
+  intros H. unfold to_i64. change (2 ^ 63) with 9223372036854775808 in *.
+  replace (n >=? 9223372036854775808) with false by lia. reflexivity.
+Qed.
+
+Lemma read_headers_ok ps : forall rest,
+  Forall patch_ok ps ->
+  read_headers (length ps) (concat (map enc_header ps) ++ rest) = Ok (map hdr3 ps, rest).
+Proof.
+  induction ps as [|p ps IH]; intros rest H; [reflexivity|].
+  inversion H as [|? ? Hp Hps]; subst. destruct Hp as (Ho & Hd & Hn & _).
+  cbn [length map concat]. rewrite <- app_assoc.
+  set (R := concat (map enc_header ps) ++ rest).
+  assert (L8 : zlen (be_enc 8 (p_off p)) = 8) by (rewrite be_enc_zlen; reflexivity).
+  assert (L4a : zlen (be_enc 4 (p_old p)) = 4) by (rewrite be_enc_zlen; reflexivity).
+  assert (L4b : zlen (be_enc 4 (p_new p)) = 4) by (rewrite be_enc_zlen; reflexivity).
+  assert (S1 : zslice 0 8 (enc_header p ++ R) = be_enc 8 (p_off p)).
+  { unfold enc_header. rewrite <- !app_assoc. now apply zslice_head. }
+  assert (S2 : zslice 8 12 (enc_header p ++ R) = be_enc 4 (p_old p)).
+  { unfold enc_header. rewrite <- !app_assoc. apply zslice_mid; [exact L8|exact L4a]. }
+  assert (S3 : zslice 12 16 (enc_header p ++ R) = be_enc 4 (p_new p)).
+  { unfold enc_header. rewrite <- !app_assoc.
+    rewrite (app_assoc (be_enc 8 (p_off p))). apply zslice_mid; [rewrite zlen_app; lia|exact L4b]. }
+  assert (S4 : zdrop ph_size (enc_header p ++ R) = R).
+  { apply zdrop_app_exact. apply zlen_enc_header. }
+  cbn [read_headers]. cbv zeta. rewrite S1, S2, S3, S4.
+  replace (zlen (enc_header p ++ R) <? ph_size) with false
+    by (rewrite zlen_app, zlen_enc_header; unfold ph_size; pose proof (zlen_nonneg R); lia).
+  unfold R. rewrite IH by exact Hps. cbn [bind fst snd].
+  change (2 ^ 63) with 9223372036854775808 in Ho. change (2 ^ 32) with 4294967296 in Hd, Hn.
+  rewrite !be_dec_enc.
+  - rewrite to_i64_small by (change (2 ^ 63) with 9223372036854775808; lia). reflexivity.
+  - change (256 ^ Z.of_nat 4) with 4294967296. unfold p_new. pose proof (zlen_nonneg (p_blob p)). lia.
+  - change (256 ^ Z.of_nat 4) with 4294967296. lia.
+  - change (256 ^ Z.of_nat 8) with 18446744073709551616. lia.
+Qed.
+
+Lemma read_blobs_ok ps : forall rest,
+  read_blobs (map hdr3 ps) (concat (map p_blob ps) ++ rest) = Ok ps.
+Proof.
+  induction ps as [|p ps IH]; intros rest; [reflexivity|].
+  cbn [map concat]. rewrite <- app_assoc. unfold hdr3 at 1. cbn [read_blobs].
+  set (R := concat (map p_blob ps) ++ rest).
+  replace (zlen (p_blob p ++ R) <? p_new p) with false
+    by (rewrite zlen_app; unfold p_new; pose proof (zlen_nonneg R); lia).
+  rewrite zdrop_app_exact by reflexivity. rewrite ztake_app_exact by reflexivity.
+  unfold R. rewrite IH. cbn [bind]. destruct p; reflexivity.
+Qed.
+
+Lemma read_headers_short k : forall l,
+  zlen l < 16 * Z.of_nat k -> read_headers k l = Err E_SHORT.
+Proof.
+  induction k as [|k IH]; intros l H.
+  - pose proof (zlen_nonneg l). lia.
+  - cbn [read_headers]. cbv zeta. destruct (zlen l <? ph_size) eqn:E; [reflexivity|].
+    unfold ph_size in *. rewrite IH; [reflexivity|]. rewrite zlen_zdrop by lia. lia.
+Qed.
+
+Lemma read_blobs_short ps : forall l,
+  zlen l < zlen (concat (map p_blob ps)) -> read_blobs (map hdr3 ps) l = Err E_SHORT.
+Proof.
+  induction ps as [|p ps IH]; intros l H.
+  - cbn in H. pose proof (zlen_nonneg l). lia.
+  - cbn [map concat] in *. unfold hdr3 at 1. cbn [read_blobs].
+    destruct (zlen l <? p_new p) eqn:E; [reflexivity|].
+    rewrite zlen_app in H. unfold p_new in *. pose proof (zlen_nonneg (p_blob p)).
+    rewrite IH; [reflexivity|]. rewrite zlen_zdrop by lia. lia.
+Qed.
+
+Lemma be4_roundtrip n : 0 <= n < 2 ^ 32 -> be_dec (be_enc 4 n) = n.
+Proof.
+  intros H. apply be_dec_enc. change (256 ^ Z.of_nat 4) with 4294967296.
+  change (2 ^ 32) with 4294967296 in H. lia.
+Qed.
+
+(* load on "header ++ body" where the header is the one dump_sorted writes *)
+Lemma load_with_header n body :
+  0 <= n < 2 ^ 32 ->
+  load (be_enc 4 1 ++ be_enc 4 n ++ body) =
+  (r <- read_headers (Z.to_nat n) body ;; read_blobs (fst r) (snd r)).
+Proof.
+  intros Hn. unfold load.
+  assert (L1 : zlen (be_enc 4 1) = 4) by (rewrite be_enc_zlen; reflexivity).
+  assert (L2 : zlen (be_enc 4 n) = 4) by (rewrite be_enc_zlen; reflexivity).
+  replace (zlen (be_enc 4 1 ++ be_enc 4 n ++ body) <? psh_size) with false
+    by (rewrite !zlen_app, L1, L2; unfold psh_size; pose proof (zlen_nonneg body); lia).
+  cbv zeta. rewrite zslice_head by exact L1.
+  rewrite zslice_mid by (rewrite ?L1, ?L2; reflexivity).
+  rewrite be4_roundtrip by (change (2 ^ 32) with 4294967296; lia).
+  rewrite be4_roundtrip by exact Hn.
+  change (load_version_bad 1) with false. cbv iota.
+  rewrite app_assoc. rewrite zdrop_app_exact by (rewrite zlen_app, L1, L2; reflexivity).
+  reflexivity.
+Qed.
+
+Lemma load_dump : forall ps,
+  Forall patch_ok ps -> zlen ps < 2 ^ 32 -> load (dump_sorted ps) = Ok ps.
+Proof.
+  intros ps H Hn. unfold dump_sorted.
+  rewrite load_with_header by (pose proof (zlen_nonneg ps); lia).
+  unfold zlen at 1. rewrite Nat2Z.id. rewrite read_headers_ok by exact H. cbn [bind fst snd].
+  rewrite <- (app_nil_r (concat (map p_blob ps))). apply read_blobs_ok.
+Qed.
+
+Lemma load_rejects_version : forall l,
+  8 <= zlen l -> be_dec (zslice 0 4 l) <> 1 -> load l = Err E_VERSION.
+Proof.
+  intros l H Hv. unfold load. unfold psh_size.
+  replace (zlen l <? 8) with false by lia. cbv zeta.
+  unfold load_version_bad. replace (be_dec (zslice 0 4 l) =? 1) with false by lia. reflexivity.
+Qed.
+
+Lemma load_rejects_prefix : forall ps n,
+  Forall patch_ok ps -> zlen ps < 2 ^ 32 -> 0 <= n < zlen (dump_sorted ps) ->
+  exists e, load (ztake n (dump_sorted ps)) = Err e.
+Proof.
+  intros ps n H Hps Hn. exists E_SHORT.
+  destruct (Z.ltb_spec n 8) as [Hlt|Hge].
+  - unfold load. rewrite zlen_ztake by lia. unfold psh_size.
+    replace (n <? 8) with true by lia. reflexivity.
+  - unfold dump_sorted in *.
+    assert (L1 : zlen (be_enc 4 1) = 4) by (rewrite be_enc_zlen; reflexivity).
+    assert (L2 : zlen (be_enc 4 (zlen ps)) = 4) by (rewrite be_enc_zlen; reflexivity).
+    set (H1 := be_enc 4 1) in *. set (H2 := be_enc 4 (zlen ps)) in *.
+    set (Hd := concat (map enc_header ps)) in *. set (Bl := concat (map p_blob ps)) in *.
+    rewrite !zlen_app in Hn.
+    rewrite (ztake_app_r n H1) by lia. rewrite (ztake_app_r (n - zlen H1) H2) by lia.
+    rewrite L1, L2. unfold H1, H2.
+    rewrite load_with_header by (pose proof (zlen_nonneg ps); lia).
+    unfold zlen at 1. rewrite Nat2Z.id.
+    assert (LH : zlen Hd = 16 * zlen ps) by apply zlen_hdrs.
+    destruct (Z.ltb_spec (n - 4 - 4) (zlen Hd)) as [Hs|Hl].
+    + rewrite read_headers_short; [reflexivity|].
+      pose proof (zlen_ztake_le (n - 4 - 4) (Hd ++ Bl)).
+      rewrite zlen_ztake_min by lia. unfold zlen in LH at 2. lia.
+    + rewrite ztake_app_r by lia. unfold Hd. rewrite read_headers_ok by exact H.
+      cbn [bind fst snd]. apply read_blobs_short.
+      fold Hd Bl. rewrite zlen_ztake_min by lia. lia.
+Qed.
+
+(* ------------------------------------------------------------------ 8. in place = rewrite *)
+Definition same_size (p : patch) : Prop := p_old p = p_new p.
+
+Lemma write_at_same f off blob :
+  0 <= off -> off + zlen blob <= zlen f -> write_at f off blob = replace1 off (zlen blob) blob f.
+Proof.
+  intros H1 H2. unfold write_at, replace1. destruct blob as [|b bl].
+  - rewrite zlen_nil, Z.add_0_r. cbn [app]. symmetry. apply ztake_zdrop.
+  - pose proof (zlen_nonneg (b :: bl)).
+    replace (Z.to_nat (off - zlen f)) with 0%nat by lia. cbn [repeat]. rewrite app_nil_r. reflexivity.
+Qed.
+
+Lemma zlen_replace1_same off old blob f :
+  0 <= off -> 0 <= old -> off + old <= zlen f -> zlen blob = old ->
+  zlen (replace1 off old blob f) = zlen f.
+Proof.
+  intros H1 H2 H3 H4. unfold replace1. rewrite !zlen_app, zlen_ztake, zlen_zdrop by lia. lia.
+Qed.
+
+Lemma splice_len_same ps : forall f pos,
+  0 <= pos <= zlen f -> Forall same_size ps -> asc_disjoint pos ps (zlen f) = true ->
+  zlen (splice ps f) = zlen f.
+Proof.
+  induction ps as [|p r IH]; intros f pos Hpos Hs H; [reflexivity|].
+  inversion Hs as [|? ? Hp Hr]; subst. apply asc_cons in H as (H1 & H2 & H3 & H4).
+  rewrite splice_cons. specialize (IH f (p_off p + p_old p)).
+  rewrite zlen_replace1_same; [apply IH; (assumption || lia)|lia|lia| |symmetry; exact Hp].
+  rewrite IH by (assumption || lia). lia.
+Qed.
+
+Lemma splice_local r : forall pos g g',
+  0 <= pos <= zlen g -> zlen g = zlen g' -> asc_disjoint pos r (zlen g) = true ->
+  zdrop pos g = zdrop pos g' -> zdrop pos (splice r g) = zdrop pos (splice r g').
+Proof.
+  induction r as [|q r IH]; intros pos g g' Hpos Hl H E; [exact E|].
+  apply asc_cons in H as (H1 & H2 & H3 & H4).
+  set (e := p_off q + p_old q) in *.
+  destruct (splice_shape r g e) as [T1 L1]; [lia|exact H4|].
+  destruct (splice_shape r g' e) as [T2 L2]; [lia|rewrite <- Hl; exact H4|].
+  assert (Ee : zdrop e g = zdrop e g').
+  { replace e with ((e - pos) + pos) by lia. rewrite <- !zdrop_zdrop by lia. now rewrite E. }
+  specialize (IH e g g' ltac:(lia) Hl H4 Ee).
+  rewrite !splice_cons. unfold replace1. fold e.
+  apply (ztake_le (p_off q)) in T1; [|lia]. apply (ztake_le (p_off q)) in T2; [|lia].
+  rewrite T1, T2, IH.
+  rewrite !zdrop_app_l by (rewrite zlen_ztake; lia).
+  rewrite !zdrop_ztake by lia. now rewrite E.
+Qed.
+
+Lemma splice_commute_same p r f pos :
+  0 <= pos -> same_size p -> asc_disjoint pos (p :: r) (zlen f) = true ->
+  splice r (replace1 (p_off p) (p_old p) (p_blob p) f) =
+  replace1 (p_off p) (p_old p) (p_blob p) (splice r f).
+Proof.
+  intros Hpos Hs H. apply asc_cons in H as (H1 & H2 & H3 & H4).
+  unfold same_size, p_new in Hs.
+  set (e := p_off p + p_old p) in *. set (f1 := replace1 (p_off p) (p_old p) (p_blob p) f).
+  assert (Lf1 : zlen f1 = zlen f) by (apply zlen_replace1_same; lia).
+  assert (La : zlen (ztake (p_off p) f ++ p_blob p) = e) by (rewrite zlen_app, zlen_ztake; lia).
+  assert (Tf1 : ztake e f1 = ztake (p_off p) f ++ p_blob p).
+  { unfold f1, replace1. rewrite app_assoc. now apply ztake_app_exact. }
+  assert (Df1 : zdrop e f1 = zdrop e f).
+  { unfold f1, replace1. rewrite app_assoc. now apply zdrop_app_exact. }
+  destruct (splice_shape r f1 e) as [T1 L1]; [lia|rewrite Lf1; exact H4|].
+  destruct (splice_shape r f e) as [T2 L2]; [lia|exact H4|].
+  rewrite <- (ztake_zdrop e (splice r f1)). rewrite T1, Tf1.
+  rewrite (splice_local r e f1 f) by (try rewrite Lf1; (assumption || lia)).
+  unfold replace1. fold e. apply (ztake_le (p_off p)) in T2; [|lia]. rewrite T2.
+  now rewrite <- app_assoc.
+Qed.
+
+Definition W (ps : list patch) (f : bytes) : bytes :=
+  fold_left (fun f p => write_at f (p_off p) (p_blob p)) ps f.
+
+Lemma W_same ps : forall f pos,
+  0 <= pos -> Forall same_size ps -> asc_disjoint pos ps (zlen f) = true -> W ps f = splice ps f.
+Proof.
+  induction ps as [|p r IH]; intros f pos Hpos Hs H; [reflexivity|].
+  inversion Hs as [|? ? Hp Hr]; subst.
+  pose proof (splice_commute_same p r f pos Hpos Hp H) as C.
+  apply asc_cons in H as (H1 & H2 & H3 & H4). unfold same_size, p_new in Hp.
+  unfold W. cbn [fold_left]. fold (W r (write_at f (p_off p) (p_blob p))).
+  rewrite write_at_same by lia. rewrite <- Hp.
+  rewrite (IH _ (p_off p + p_old p)); [| lia | exact Hr |].
+  - rewrite splice_cons. exact C.
+  - rewrite zlen_replace1_same by lia. exact H4.
+Qed.
+
+Lemma splice_app_tail ps : forall a b pos,
+  0 <= pos <= zlen a -> asc_disjoint pos ps (zlen a) = true -> splice ps (a ++ b) = splice ps a ++ b.
+Proof.
+  induction ps as [|p r IH]; intros a b pos Hpos H; [reflexivity|].
+  apply asc_cons in H as (H1 & H2 & H3 & H4).
+  destruct (splice_shape r a (p_off p + p_old p)) as [_ L]; [lia|exact H4|].
+  rewrite !splice_cons, (IH a b (p_off p + p_old p)) by (assumption || lia).
+  unfold replace1. rewrite ztake_app_l by lia. rewrite zdrop_app_l by lia.
+  now rewrite <- !app_assoc.
+Qed.
+
+Lemma truncate_id g : truncate g (zlen g) = g.
+Proof.
+  unfold truncate. rewrite ztake_all by lia. rewrite Z.sub_diag. cbn [Z.to_nat repeat]. apply app_nil_r.
+Qed.
+
+Lemma truncate_write_at X d off blob :
+  zlen X = off -> truncate (write_at (X ++ d) off blob) (off + zlen blob) = X ++ blob.
+Proof.
+  intros HX. pose proof (zlen_nonneg d). pose proof (zlen_nonneg X).
+  unfold write_at. destruct blob as [|b bl].
+  - rewrite zlen_nil, Z.add_0_r. unfold truncate. rewrite ztake_app_exact by exact HX.
+    rewrite zlen_app. replace (Z.to_nat (off - (zlen X + zlen d))) with 0%nat by lia. reflexivity.
+  - set (blob := b :: bl). pose proof (zlen_nonneg blob).
+    rewrite zlen_app. replace (Z.to_nat (off - (zlen X + zlen d))) with 0%nat by lia.
+    cbn [repeat]. rewrite app_nil_r. rewrite ztake_app_exact by exact HX.
+    unfold truncate. rewrite app_assoc.
+    rewrite ztake_app_exact by (rewrite zlen_app; lia).
+    rewrite !zlen_app.
+    replace (Z.to_nat (off + zlen blob - (zlen X + zlen blob + zlen (zdrop (off + zlen blob) (X ++ d)))))
+      with 0%nat by (pose proof (zlen_nonneg (zdrop (off + zlen blob) (X ++ d))); lia).
+    cbn [repeat]. apply app_nil_r.
+Qed.
+
+Lemma elig_shape ps : forall i n in_size size sz,
+  i + zlen ps = n -> eligible_from i n ps in_size size = Some sz ->
+  (Forall same_size ps /\ sz = size) \/
+  (exists front last, ps = front ++ [last] /\ Forall same_size front /\
+                      p_off last + p_old last = in_size /\ sz = p_off last + p_new last).
+Proof.
+  induction ps as [|p ps IH]; intros i n in_size size sz Hn H.
+  - cbn in H. inversion H. left. split; [constructor|reflexivity].
+  - cbn [eligible_from] in H. rewrite zlen_cons in Hn. unfold apply_same_size in H.
+    destruct (p_old p =? p_new p) eqn:E.
+    + apply IH in H; [|lia]. destruct H as [[H1 H2]|(front & last & H1 & H2 & H3 & H4)].
+      * left. split; [constructor; [unfold same_size; lia|exact H1]|exact H2].
+      * right. exists (p :: front), last. subst ps. repeat split; try assumption.
+        constructor; [unfold same_size; lia|exact H2].
+    + unfold apply_not_last in H. destruct (i =? n - 1) eqn:E2; [|discriminate]. cbn [negb] in H.
+      assert (Hps : ps = []) by (apply zlen_0_nil; lia). subst ps.
+      unfold apply_not_at_eof, apply_old_end in H.
+      destruct (p_off p + p_old p =? in_size) eqn:E3; [|discriminate]. cbn [negb eligible_from] in H.
+      inversion H. right. exists [], p. unfold apply_new_size. repeat split; try constructor. lia.
+Qed.
+
+Lemma inplace_eq_rewrite : forall ps file size,
+  asc_disjoint 0 ps (zlen file) = true -> eligible ps file = Some size ->
+  rewrite ps file = Ok (inplace ps file size).
+Proof.
+  intros ps file size H He. rewrite rewrite_sorted by exact H. f_equal.
+  unfold eligible in He. apply elig_shape in He; [|lia].
+  unfold inplace. fold (W ps file). pose proof (zlen_nonneg file) as Hf.
+  destruct He as [[Hs ->]|(front & last & -> & Hs & Hend & ->)].
+  - rewrite (W_same ps file 0) by (assumption || lia).
+    rewrite <- (splice_len_same ps file 0) by (assumption || lia).
+    symmetry. apply truncate_id.
+  - apply asc_app in H as [A1 A2]. apply asc_cons in A2 as (B1 & B2 & B3 & _).
+    pose proof (asc_endpos_ge _ _ _ A1) as Hp.
+    set (off := p_off last) in *.
+    assert (La : zlen (ztake off file) = off) by (apply zlen_ztake; lia).
+    assert (A3 : asc_disjoint 0 front (zlen (ztake off file)) = true)
+      by (rewrite La; eapply asc_shrink; [exact A1|lia]).
+    assert (LX : zlen (splice front (ztake off file)) = off).
+    { rewrite (splice_len_same front _ 0) by (assumption || lia). exact La. }
+    unfold W. rewrite fold_left_app. cbn [fold_left]. fold (W front file). fold off.
+    rewrite (W_same front file 0) by (assumption || lia).
+    rewrite <- (ztake_zdrop off file) at 2.
+    rewrite (splice_app_tail front _ _ 0) by (assumption || lia).
+    unfold p_new. rewrite truncate_write_at by exact LX.
+    rewrite splice_app. cbn [splice fold_right]. fold off. unfold replace1.
+    rewrite (zdrop_all (off + p_old last)) by lia. rewrite app_nil_r.
+    rewrite (splice_app_tail front _ _ 0) by (assumption || lia). reflexivity.
+Qed.
+
+(* ------------------------------------------------------------------ 5. pipeline, any order *)
+(* permutation-invariant description of "sorts to an ascending, disjoint, in-bounds list
+   with pairwise distinct offsets" *)
+Definition inb (flen : Z) (p : patch) : Prop :=
+  0 <= p_off p /\ 0 <= p_old p /\ p_off p + p_old p <= flen.
+Definition sep (a b : patch) : Prop :=
+  (p_off a < p_off b /\ p_off a + p_old a <= p_off b) \/
+  (p_off b < p_off a /\ p_off b + p_old b <= p_off a).
+Fixpoint pw (l : list patch) : Prop :=
+  match l with [] => True | a :: r => Forall (sep a) r /\ pw r end.
+Definition good (flen : Z) (l : list patch) : Prop :=
+  asc_disjoint 0 (isort l) flen = true /\ strictly_asc (isort l) = true.
+
+Lemma sep_sym a b : sep a b -> sep b a.
+Proof. unfold sep. tauto. Qed.
+
+Lemma pw_perm l l' : Permutation l l' -> pw l -> pw l'.
+Proof.
+  induction 1 as [|x l l' HP IH|x y l|l l' l'' H1 IH1 H2 IH2]; intros H.
+  - exact I.
+  - destruct H as [H1 H2]. split; [|now apply IH]. eapply Permutation_Forall; eassumption.
+  - destruct H as [H1 [H2 H3]]. inversion H1; subst. cbn [pw]. repeat split; try assumption.
+    constructor; [now apply sep_sym|assumption].
+  - auto.
+Qed.
+
+Lemma pw_app l l' :
+  pw (l ++ l') <-> (pw l /\ pw l' /\ Forall (fun a => Forall (sep a) l') l).
+Proof.
+  induction l as [|a l IH].
+  - cbn. split; [intros H; repeat split; (assumption || constructor)|tauto].
+  - cbn [app pw]. rewrite Forall_app, IH. split.
+    + intros [[H1 H2] (H3 & H4 & H5)]. repeat split; try assumption. now constructor.
+    + intros [[H1 H2] (H3 & H4)]. inversion H4; subst. tauto.
+Qed.
+
+Lemma sorted_to_pw S : forall pos flen,
+  0 <= pos -> asc_disjoint pos S flen = true -> strictly_asc S = true ->
+  Forall (inb flen) S /\ pw S.
+Proof.
+  induction S as [|a r IH]; intros pos flen Hpos HA HS.
+  - split; [constructor|exact I].
+  - apply asc_cons in HA as (H1 & H2 & H3 & H4). apply strictly_asc_cons in HS as [S1 S2].
+    destruct (IH (p_off a + p_old a) flen) as [I1 I2]; [lia|assumption|assumption|].
+    split; [constructor; [unfold inb; lia|exact I1]|]. split; [|exact I2].
+    pose proof (asc_all_ge _ _ _ H4) as G. rewrite Forall_forall in *.
+    intros b Hb. specialize (S1 b Hb). specialize (G b Hb). cbv beta in *. unfold sep. lia.
+Qed.
+
+Lemma pw_to_sorted S : forall pos flen,
+  nondecreasing S = true -> Forall (inb flen) S -> pw S -> Forall (fun p => pos <= p_off p) S ->
+  asc_disjoint pos S flen = true /\ strictly_asc S = true.
+Proof.
+  induction S as [|a r IH]; intros pos flen HN HI HP HG.
+  - split; reflexivity.
+  - apply nondecreasing_cons in HN as [N1 N2]. inversion HI as [|? ? I1 I2]; subst.
+    destruct HP as [P1 P2]. inversion HG as [|? ? G1 G2]; subst.
+    assert (Q : Forall (fun b => p_off a < p_off b /\ p_off a + p_old a <= p_off b) r).
+    { rewrite Forall_forall in *. intros b Hb. specialize (N1 b Hb). specialize (P1 b Hb).
+      cbv beta in *. unfold sep in P1. lia. }
+    destruct (IH (p_off a + p_old a) flen N2 I2 P2) as [A1 A2].
+    { eapply Forall_impl; [|exact Q]. cbv beta. intros; lia. }
+    unfold inb in I1. split.
+    + apply asc_cons. repeat split; (assumption || lia).
+    + apply strictly_asc_cons. split; [|exact A2]. eapply Forall_impl; [|exact Q]. cbv beta. intros; lia.
+Qed.
+
+Lemma good_iff flen l : good flen l <-> (Forall (inb flen) l /\ pw l).
+Proof.
+  unfold good. split.
+  - intros [H1 H2]. destruct (sorted_to_pw _ 0 flen ltac:(lia) H1 H2) as [I P]. split.
+    + eapply Permutation_Forall; [apply isort_perm|exact I].
+    + eapply pw_perm; [apply isort_perm|exact P].
+  - intros [I P]. apply pw_to_sorted.
+    + apply isort_sorted.
+    + eapply Permutation_Forall; [symmetry; apply isort_perm|exact I].
+    + eapply pw_perm; [symmetry; apply isort_perm|exact P].
+    + eapply Permutation_Forall; [symmetry; apply isort_perm|].
+      eapply Forall_impl; [|exact I]. unfold inb. intros; lia.
+Qed.
+
+Lemma good_perm_isort flen l l' : good flen l -> Permutation l l' -> isort l' = isort l.
+Proof.
+  intros [_ H] HP. apply sorted_unique; [|apply isort_sorted|exact H].
+  rewrite (isort_perm l'), (isort_perm l). now symmetry.
+Qed.
+Lemma good_perm flen l l' : good flen l -> Permutation l l' -> good flen l'.
+Proof.
+  intros H HP. unfold good. rewrite (good_perm_isort flen l l' H HP). exact H.
+Qed.
+
+Lemma block_subst g Y z Z2 :
+  good (zlen g) (Y ++ [z]) -> good (zlen g) (Y ++ Z2) ->
+  (forall pos B, 0 <= pos -> asc_disjoint pos (z :: B) (zlen g) = true ->
+     asc_disjoint pos (Z2 ++ B) (zlen g) = true /\ splice (Z2 ++ B) g = splice (z :: B) g) ->
+  splice (isort (Y ++ Z2)) g = splice (isort (Y ++ [z])) g.
+Proof.
+  intros [G1 G1'] [G2 G2'] Hloc.
+  pose proof (isort_perm (Y ++ [z])) as HP.
+  assert (Hin : In z (isort (Y ++ [z]))).
+  { eapply Permutation_in; [symmetry; exact HP|]. apply in_or_app. right. now left. }
+  apply in_split in Hin as (A & B & E). rewrite E in *.
+  apply asc_app in G1 as [A1 A2]. pose proof (asc_endpos_ge _ _ _ A1) as Hp.
+  destruct (Hloc _ _ Hp A2) as [A3 S3].
+  assert (PY : Permutation (A ++ B) Y).
+  { apply (Permutation_cons_inv (a := z)).
+    rewrite (Permutation_middle A B z), HP. apply Permutation_sym, Permutation_cons_append. }
+  assert (Pq : Permutation (A ++ Z2 ++ B) (Y ++ Z2)).
+  { rewrite <- PY. rewrite app_assoc, (Permutation_app_comm A Z2), <- app_assoc.
+    apply Permutation_app_comm. }
+  assert (Aq : asc_disjoint 0 (A ++ Z2 ++ B) (zlen g) = true) by (apply asc_app; auto).
+  rewrite <- (sorted_perm_unique _ _ Pq (asc_nondecreasing _ _ _ Aq) G2').
+  rewrite (splice_app A), S3. now rewrite <- splice_app.
+Qed.
+
+Lemma split_struct n : forall off rem blob,
+  0 <= rem -> (n = 0%nat \/ 0 < rem) ->
+  Forall (fun p => off <= p_off p /\ 0 <= p_old p /\
+                   p_off p + p_old p <= off + Z.of_nat n * uint32Max + rem /\
+                   (p_off p = off \/ p_off p < off + Z.of_nat n * uint32Max + rem))
+         (split_pieces n off ++ [mkPatch (off + Z.of_nat n * uint32Max) rem blob]) /\
+  pw (split_pieces n off ++ [mkPatch (off + Z.of_nat n * uint32Max) rem blob]).
+Proof.
+  induction n as [|n IH]; intros off rem blob Hrem Hn.
+  - cbn [split_pieces app]. split; [|cbn; auto]. constructor; [|constructor].
+    cbn [p_off p_old]. lia.
+  - destruct Hn as [Hn|Hn]; [discriminate|].
+    cbn [split_pieces]. rewrite <- app_comm_cons.
+    replace (off + Z.of_nat (S n) * uint32Max) with ((off + uint32Max) + Z.of_nat n * uint32Max) by lia.
+    destruct (IH (off + uint32Max) rem blob Hrem (or_intror Hn)) as [F P].
+    assert (HM : 0 < uint32Max) by (unfold uint32Max; lia).
+    assert (Hn0 : 0 <= Z.of_nat n * uint32Max) by (unfold uint32Max; lia).
+    assert (HS : Z.of_nat (S n) * uint32Max = uint32Max + Z.of_nat n * uint32Max) by lia.
+    split.
+    + constructor; [cbn [p_off p_old]; lia|].
+      eapply Forall_impl; [|exact F]. cbv beta. intros p Hp. lia.
+    + split; [|exact P]. eapply Forall_impl; [|exact F]. cbv beta. intros p Hp.
+      unfold sep. cbn [p_off p_old]. lia.
+Qed.
+
+Lemma fresh_good g Y off old blob :
+  good (zlen g) (Y ++ [mkPatch off old blob]) ->
+  good (zlen g) (Y ++ add_fresh off old blob) /\
+  splice (isort (Y ++ add_fresh off old blob)) g = splice (isort (Y ++ [mkPatch off old blob])) g.
+Proof.
+  intros G.
+  assert (G2 : good (zlen g) (Y ++ add_fresh off old blob)).
+  { apply good_iff in G as [I P]. apply good_iff.
+    apply Forall_app in I as [IY Ic]. apply pw_app in P as (PY & _ & PYc).
+    inversion Ic as [|? ? Ic1 _]; subst. unfold inb in Ic1. cbn [p_off p_old] in Ic1.
+    destruct (split_count_facts old ltac:(lia)) as (K1 & K2 & K3).
+    unfold add_fresh. set (k := split_count old) in *. cbv zeta.
+    pose (n := Z.to_nat k). assert (Hk : k = Z.of_nat n) by (unfold n; lia).
+    replace (Z.to_nat k) with n by reflexivity. rewrite Hk in *.
+    destruct (split_struct n off (old - Z.of_nat n * uint32Max) blob K2) as [F P]; [lia|].
+    set (Zs := split_pieces n off ++ _) in *.
+    split.
+    - apply Forall_app. split; [exact IY|]. eapply Forall_impl; [|exact F].
+      cbv beta. unfold inb. intros p Hp. lia.
+    - apply pw_app. repeat split; try assumption.
+      eapply Forall_impl; [|exact PYc]. cbv beta. intros y Hy. inversion Hy as [|? ? Hyc _]; subst.
+      eapply Forall_impl; [|exact F]. cbv beta. intros p Hp.
+      unfold sep in *. cbn [p_off p_old] in Hyc. lia. }
+  split; [exact G2|].
+  apply block_subst; [exact G|exact G2|]. intros pos B Hpos HA. now apply local_fresh.
+Qed.
+
+Lemma merge_good g Y last off old blob m :
+  try_coalesce last off old blob = Some m ->
+  good (zlen g) (Y ++ [last; mkPatch off old blob]) ->
+  good (zlen g) (Y ++ [m]) /\
+  splice (isort (Y ++ [m])) g = splice (isort (Y ++ [last; mkPatch off old blob])) g.
+Proof.
+  intros Hc G. pose proof Hc as Hc'. apply coalesce_inv in Hc' as [Eo Em].
+  pose proof G as G'. apply good_iff in G' as [I P].
+  apply Forall_app in I as [IY Ic]. apply pw_app in P as (PY & _ & PYc).
+  inversion Ic as [|? ? Il Ic']; subst x l. inversion Ic' as [|? ? Ic1 _]; subst x l.
+  unfold inb in Il, Ic1. cbn [p_off p_old] in Ic1.
+  assert (G1 : good (zlen g) (Y ++ [m])).
+  { apply good_iff. split.
+    - apply Forall_app. split; [exact IY|]. constructor; [|constructor].
+      rewrite Em. unfold inb. cbn [p_off p_old]. lia.
+    - apply pw_app. repeat split; try assumption; try constructor.
+      eapply Forall_impl; [|exact PYc]. cbv beta. intros y Hy.
+      inversion Hy as [|? ? Hy1 Hy']; subst x l. inversion Hy' as [|? ? Hy2 _]; subst x l.
+      constructor; [|constructor]. rewrite Em. unfold sep in *. cbn [p_off p_old] in *. lia. }
+  split; [exact G1|]. symmetry.
+  apply block_subst; [exact G1|exact G|]. intros pos B Hpos HA.
+  assert (HB : asc_disjoint pos (last :: mkPatch off old blob :: B) (zlen g) = true).
+  { eapply local_merge_bwd; [exact Hc| | |exact HA]; lia. }
+  destruct (local_merge_fwd _ _ _ _ _ _ _ _ Hc Hpos HB) as [_ S]. split; [exact HB|]. now symmetry.
+Qed.
+
+Lemma anyorder_inv g : forall cs X,
+  good (zlen g) (X ++ map call_patch cs) ->
+  good (zlen g) (X ++ add_all cs) /\
+  splice (isort (X ++ add_all cs)) g = splice (isort (X ++ map call_patch cs)) g.
+Proof.
+  induction cs as [|c cs IH] using rev_ind; intros X G.
+  - cbn [map add_all fold_left]. auto.
+  - rewrite map_app in *. cbn [map] in *.
+    set (C := map call_patch cs) in *. set (pc := call_patch c) in *.
+    assert (P1 : Permutation (X ++ C ++ [pc]) ((X ++ [pc]) ++ C)).
+    { rewrite <- app_assoc. apply Permutation_app_head. apply Permutation_app_comm. }
+    pose proof (good_perm _ _ _ G P1) as G1.
+    destruct (IH _ G1) as [G2 S2].
+    assert (P2 : Permutation ((X ++ [pc]) ++ add_all cs) ((X ++ add_all cs) ++ [pc])).
+    { rewrite <- !app_assoc. apply Permutation_app_head. apply Permutation_app_comm. }
+    pose proof (good_perm _ _ _ G2 P2) as G3.
+    rewrite (good_perm_isort _ _ _ G1 (Permutation_sym P1)).
+    rewrite <- S2. rewrite <- (good_perm_isort _ _ _ G2 P2).
+    clear G G1 G2 S2 P1 P2 IH.
+    rewrite add_all_snoc. unfold pc, call_patch in *.
+    destruct (add_cases (add_all cs) (c_off c) (c_old c) (c_blob c)) as [E|(front & last & m & E1 & E2 & E3)].
+    + rewrite E, app_assoc. now apply fresh_good.
+    + rewrite E3. rewrite E1 in G3 |- *. rewrite !app_assoc. rewrite app_assoc in G3.
+      rewrite <- (app_assoc (X ++ front)) in G3 |- *. cbn [app] in *.
+      now apply merge_good.
+Qed.
+
+Lemma apply_anyorder : forall cs file,
+  asc_disjoint 0 (isort (map call_patch cs)) (zlen file) = true ->
+  strictly_asc (isort (map call_patch cs)) = true ->
+  rewrite (isort (add_all cs)) file = Ok (splice_calls cs file).
+Proof.
+  intros cs file H1 H2.
+  destruct (anyorder_inv file cs []) as [[A _] S]; [split; assumption|].
+  cbn [app] in *. rewrite rewrite_sorted by exact A. unfold splice_calls. now rewrite S.
+Qed.
